@@ -122,7 +122,7 @@ use crate::internal::{DirEntry, MiniAllocator, Sectors, Version};
 pub const NBF: usize = SEC * (1 + 4); // header, FAT, directory, + the two sectors the scenario appends
 type FBF = FaultAt<PtrFile<NBF>>;
 
-fn mk_bare_fault(at: usize, data: &mut [u8; NBF]) -> MiniAllocator<FBF> {
+fn mk_bare_fault(at: usize, fail_writes: bool, data: &mut [u8; NBF]) -> MiniAllocator<FBF> {
     let fatv = [FATSECT, EOC];
     let ff = [0xffu8; SEC];
     data[soff(0)..soff(0) + SEC].copy_from_slice(&ff);
@@ -149,7 +149,7 @@ fn mk_bare_fault(at: usize, data: &mut [u8; NBF]) -> MiniAllocator<FBF> {
     put32(&mut data[..], 44, 1); put32(&mut data[..], 48, 1); put32(&mut data[..], 60, EOC); put32(&mut data[..], 64, 0); put32(&mut data[..], 76, 0);
     let len = SEC * 3;
     let file: FBF = FaultAt { f: PtrFile::over(data, len), armed: true, at, calls: 0, injected: 0,
-                              fail_reads: false, fail_writes: true, fail_seeks: true, fail_flush: false };
+                              fail_reads: false, fail_writes, fail_seeks: true, fail_flush: false };
     let sectors = Sectors::new(Version::V3, len as u64, file);
     let mut fat = Vec::with_capacity(10);
     let free: Vec<u32> = Vec::with_capacity(10);
@@ -161,7 +161,8 @@ fn mk_bare_fault(at: usize, data: &mut [u8; NBF]) -> MiniAllocator<FBF> {
 }
 
 macro_rules! c13_mini_first_fault {
-    ($name:ident, $at:expr) => {
+    ($name:ident, $at:expr) => { c13_mini_first_fault!($name, $at, true); };
+    ($name:ident, $at:expr, $fw:expr) => {
         #[kani::proof]
         #[kani::stub(std::fmt::format, stub_format)]
         #[kani::stub(std::io::copy, stub_io_copy)]
@@ -169,7 +170,7 @@ macro_rules! c13_mini_first_fault {
         #[kani::unwind(140)]
         fn $name() {
             let mut backing = [0u8; NBF];
-            let mut m = mk_bare_fault($at, &mut backing);
+            let mut m = mk_bare_fault($at, $fw, &mut backing);
             let r1 = okv(m.begin_mini_chain());
             let inj = secacc::inner_mut(aacc::sectors_mut(dacc::allocator_mut(macc::directory_mut(&mut m)))).injected;
             if inj == 1 {
@@ -205,3 +206,13 @@ c13_mini_first_fault!(c13_mini_first_fault_at5, 5);
 c13_mini_first_fault!(c13_mini_first_fault_at6, 6);
 c13_mini_first_fault!(c13_mini_first_fault_at7, 7);
 c13_mini_first_fault!(c13_mini_first_fault_at8, 8);
+// only SEEKS fail (the k-th seek of the backend): reaches the header update (3rd seek) and the growth of
+// the mini stream with small k
+c13_mini_first_fault!(c13_mini_first_seekfault_at0, 0, false);
+c13_mini_first_fault!(c13_mini_first_seekfault_at1, 1, false);
+c13_mini_first_fault!(c13_mini_first_seekfault_at2, 2, false);
+c13_mini_first_fault!(c13_mini_first_seekfault_at3, 3, false);
+c13_mini_first_fault!(c13_mini_first_seekfault_at4, 4, false);
+c13_mini_first_fault!(c13_mini_first_seekfault_at5, 5, false);
+c13_mini_first_fault!(c13_mini_first_seekfault_at6, 6, false);
+c13_mini_first_fault!(c13_mini_first_seekfault_at7, 7, false);
